@@ -332,7 +332,19 @@ class RemoteDispatcher(Dispatcher):
                             f"\n\n{e}"
                         )
                         continue
-                self.loop.call_soon(self.process, DocumentNames[name], doc)
+                try:
+                    document_name = DocumentNames[name]
+                except KeyError as e:
+                    if self._strict:
+                        raise Bluesky0MQDecodeError from e
+                    else:
+                        print(
+                            f"The name {name} is not the name of a document. "
+                            "Dropping message on the floor and continuing. "
+                            f"\n\n{e}"
+                        )
+                        continue
+                self.loop.call_soon(self.process, document_name, doc)
 
     def start(self):
         if self.closed:
